@@ -249,3 +249,14 @@ func init() {
 		Bounds: map[string]interface{}{"exif": "IFD0 (3 fields) + IFD1 skeleton under II/MM; one-entry ASCII tags with counts <= 12 reaching past the end of the stream", "hash": "NewPHash64 / NewPHash64Alt on one 64x64 image", "outside": "cacheTimeZone names, alias check of returned objects"},
 	})
 }
+
+func init() {
+	register(&CheckDef{ID: "C18", Level: "translation_validation", Timeout: [2]int{600, 2000}, MaxSteps: 200000000, LooseSamples: true,
+		Assumptions: []string{
+			"fp=uf: a float32 is its bit pattern; + - * / are uninterpreted functions of bit patterns (+ and * commutative): if two lanes are equal for every interpretation they are equal under IEEE-754; NaN payload propagation is outside the claim",
+			"asmx (Engine B) models the 45 mnemonics used by asm_x86.s as documented in the Intel SDM / Go assembler operand order; a mis-modelled instruction would show up as an inequality that native replay does not confirm (reported as broken, never as a violation)",
+			"agreement with the mathematical DCT-II within the float rounding bound is not decided here (DESIGN.md C18-3/4)",
+		},
+		Bounds: map[string]interface{}{"kernels": "asmForwardDCT64 vs forwardDCT64 (64 symbolic inputs), asmForwardDCT256 vs forwardDCT256 (256), asmDCT2DHash64 vs DCT2DHash64 Go branch (4096)", "memory": "every load/store of the three routines checked against the argument slice, the declared stack frame and the RODATA tables"},
+	})
+}
